@@ -383,7 +383,10 @@ func (k *Kernel) failSync(fd int) {
 	}
 	for i := range f.ino.pending {
 		op := &f.ino.pending[i]
-		if !op.lost && !op.trunc {
+		if op.trunc {
+			continue // the size is metadata: a data write-back error does not undo it
+		}
+		if !op.lost {
 			k.Lost = append(k.Lost, LostWrite{Ino: f.ino.ino, Off: op.off, Len: len(op.data)})
 		}
 		op.lost = true
